@@ -81,7 +81,7 @@ def sim_obligations(chi_sym, make_model, label):
                 continue
             out = paths[0][1][1]
             sim = mm._simulator
-            snap = sim.snapshot()
+            snap = ghostsim.RUNS[-1]['snapshot']          # what the solver held when it was run
             tag = 'outputs=%s sens=%s' % (ov, subset if subset else sens)
             ok, msg = True, ''
             for k, nm in enumerate(mm._parameter_names):
@@ -92,8 +92,10 @@ def sim_obligations(chi_sym, make_model, label):
             res.append(('order.state-and-const', ok, msg))
             run = ghostsim.RUNS[-1]
             want_log = list(mm._output_names)
-            ok = run['log'] == want_log and [float(t) for t in run['times']] == times and float(run['duration']) >= times[-1]
+            ok = run['log'] == want_log and [float(t) for t in run['times']] == times and float(run['duration']) > times[-1]
             res.append(('run.request', ok, '%s: run(log=%s, times=%s, duration=%s)' % (tag, run['log'], run['times'], run['duration'])))
+            ok = snap['time'] == 0 and snap['s_state'] in (None, 'default')
+            res.append(('run.request', ok, '%s: the solver is run from time %s with state sensitivities %s; the solution is the one started at time 0 with the default state sensitivities' % (tag, snap['time'], snap['s_state'])))
             o_arr = out[0] if sens else out
             ok, msg = o_arr.shape == (len(want_log), len(times)), '%s: output shape %s' % (tag, getattr(o_arr, 'shape', None))
             if ok:
@@ -114,6 +116,28 @@ def sim_obligations(chi_sym, make_model, label):
                 s_arr = out[1]
                 ok = getattr(s_arr, 'shape', None) == (len(times), len(want_log), len(want_req))
                 res.append(('sens.shape', ok, '%s: sensitivities shape %s' % (tag, getattr(s_arr, 'shape', None))))
+            # a further call on the same model, on the single-point grid [0]: the solver must again be run from time 0 with the default state
+            # sensitivities and the state / constants of this call, and must log the requested point
+            x2 = np.array([S(sp.Symbol('z%d' % k, real=True)) for k in range(n)], dtype=object)
+            paths = explore(lambda: mm.simulate(x2, [0.0]), [])
+            if [r[0] for _, r, _ in paths] != ['ret']:
+                res.append(('simulate.runs', False, '%s: a second simulate call, on the grid [0.0], raises %r' % (tag, paths[0][1][1])))
+            else:
+                run2 = ghostsim.RUNS[-1]
+                snap2 = run2['snapshot']
+                ok = snap2['time'] == 0 and snap2['s_state'] in (None, 'default') and float(run2['duration']) > 0
+                res.append(('run.request', ok, '%s, second call on the grid [0.0]: the solver is run from time %s for the duration %s with state sensitivities %s' % (tag, snap2['time'], run2['duration'], snap2['s_state'])))
+                ok2, msg2 = True, ''
+                for k, nm in enumerate(mm._parameter_names):
+                    holder = snap2['state'] if k < len(states) else snap2['constants']
+                    if holder is None or sp.expand(holder.get(nm, sp.nan) - sym.w(x2[k])) != 0:
+                        ok2, msg2 = False, '%s, second call: the solver holds %s = %s, the vector assigns z[%d] to %s' % (tag, nm, None if holder is None else holder.get(nm), k, nm)
+                        break
+                res.append(('order.state-and-const', ok2, msg2))
+                o2 = paths[0][1][1]
+                o2 = o2[0] if sens else o2
+                res.append(('order.outputs', getattr(o2, 'shape', None) == (len(want_log), 1), '%s, second call on the grid [0.0]: output shape %s, expected %s' % (tag, getattr(o2, 'shape', None), (len(want_log), 1))))
+            if sens:
                 mm.enable_sensitivities(False)
     # the same outputs re-selected in another order while sensitivities are enabled: outputs and sensitivities stay aligned
     st_q = sorted(v.qname() for v in model.states())
